@@ -156,3 +156,26 @@ Lemma all_ok_sound n : all_ok n = true -> forall g, In g (closed_graphs n) -> Pi
 Proof.
   unfold all_ok. intros H g Hin. rewrite forallb_forall in H. apply pipeline_ok_sound. auto.
 Qed.
+
+(* ---------- splitting the space by the successors of block 0 (for n = 5 the evaluation is
+   sharded over separately compiled files, see harness/vh/bounded5.py) ---------- *)
+Lemma filter_flat_map {A B} (f : B -> bool) (g : A -> list B) (l : list A) :
+  filter f (flat_map g l) = flat_map (fun x => filter f (g x)) l.
+Proof.
+  induction l as [|x l IH]; [reflexivity|]. cbn. rewrite filter_app, IH. reflexivity.
+Qed.
+
+Definition shard_of (n : nat) (o : list Z) : list (list (list Z)) :=
+  filter closedb (map (cons o) (product n (options (S n)))).
+
+Lemma closed_graphs_split n :
+  closed_graphs (S n) = flat_map (shard_of n) (options (S n)).
+Proof. unfold closed_graphs, shard_of. cbn [product]. apply filter_flat_map. Qed.
+
+Lemma all_ok_from_shards n :
+  forallb (fun o => forallb pipeline_ok (shard_of n o)) (options (S n)) = true -> all_ok (S n) = true.
+Proof.
+  unfold all_ok. rewrite closed_graphs_split. intros H. rewrite forallb_forall in *.
+  intros g Hg. apply in_flat_map in Hg as [o [Ho Hg]]. specialize (H o Ho).
+  rewrite forallb_forall in H. apply H. exact Hg.
+Qed.
